@@ -13,8 +13,10 @@ EXPLANATION = 'non-negativity; for every incident direction sum_o brdf*cos*w = 1
 
 
 def gen_case(rng):
-    nt = int(rng.integers(1, 5))
-    nph = int(rng.choice([2, 4, 6, 8]))
+    # any resolution: mostly coarse, regularly fine (down to directions within a fraction of a
+    # degree of grazing incidence, where cos(theta) is tiny)
+    nt = int(rng.choice([1, 2, 3, 4, 4, 6, 8, 12, 16, 24]))
+    nph = int(rng.choice([2, 4, 6, 8])) if nt <= 4 else int(rng.choice([2, 4]))
     scale = float(rng.choice([1.0, rng.uniform(0.1, 10)]))
     B = int(rng.integers(1, 4))
     def coef():
